@@ -2,31 +2,47 @@ import GaeaVerif.Model.Fingerprint
 /-
   The token grammar of the C36 theorems (Props/C36.lean).
 
-  A statement is a list of *items* — words (keywords, identifiers, operators,
-  punctuation: everything the fingerprint copies in lower case), numeric
-  literals and quoted strings — each followed by a *separator*: a non-empty
-  run of white space in which complete comments (`/* … */`, `-- …⏎`, `# …⏎`)
-  may be embedded after the first white-space character.  A *rendering*
-  chooses the spelling of every item (letter case of words, value of every
-  literal, quote character) and the text of every separator.  Core Lean only:
-  the driver uses `coveredText` to tell which generated statements lie inside
-  the grammar the theorems quantify over.
+  A statement is a list of *items*, each followed by a *separator*.
+
+  * A *chunk* is a maximal run of text without white space outside quoted
+    values: a sequence of segments — word text (keywords, identifiers,
+    operators, punctuation: everything the fingerprint copies in lower case),
+    numeric literals, quoted strings and hex/bit strings — written without blanks:
+    `select`, `t.id`, `a,`, `>=`, `count(*)`, `id=1`, `name>='it''s'`,
+    `f(1,2)`, `(a=-1.5e+3`, `5,10`, `.5`, `a=x'0F'`.
+  * A *value list* is `in`/`value`/`values`, a gap, a parenthesised list, and
+    possibly further rows `, ( … )` (gaps around the comma).
+  * Behind `key update` (ON DUPLICATE KEY UPDATE) there are no value lists
+    (`values(col)` is word text there): `ctxOK` tracks it.
+  * A separator / gap is a list of *pieces*: white-space characters and
+    complete comments (`/* … */`, `-- …⏎`, `# …⏎`) in any order — a comment
+    may be glued to the tokens around it.  Comments may also be written inside
+    the parentheses of a value list.
+
+  A *rendering* chooses the spelling of every segment (letter case of words,
+  value of every literal, quote character) and the text of every separator.
+  `Stmt.toCore` is the same statement with every comment overwritten by
+  blanks — what `blankComments` makes of its text.  Core Lean only: the driver
+  uses `Stmt.ok` to tell which generated statements lie inside the grammar the
+  theorems quantify over.
 -/
 namespace GaeaVerif.FingerprintGrammar
 open GaeaVerif.Fingerprint
 
 def isOpChar (c : Char) : Bool := c = '=' || c = '<' || c = '>' || c = '!'
 
-/-- Characters that never occur inside a word item. -/
+/-- Characters that never occur inside word text. -/
 def wordBad (c : Char) : Bool :=
   isSpace c || c = '\'' || c = '"' || c = '/' || c = '+' || c = '-' || c = '#' || c = ':'
 
-/-- May `b` follow `a` inside a word?  A digit must not follow `,`, `(` or an
-    operator character (the state machine would start a number there), a dot
-    or a parenthesis must not follow an operator character. -/
+/-- After these characters a literal may be glued to word text. -/
+def litAfter (a : Char) : Bool := a = ',' || a = '(' || isOpChar a
+
+/-- May `b` follow `a` inside word text?  A digit or a dot must not follow `,`,
+    `(` or an operator character (the state machine would start a number
+    there), a parenthesis must not follow an operator character. -/
 def okAfter (a b : Char) : Bool :=
-  !wordBad b && (!isDigit b || !(a = ',' || a = '(' || isOpChar a)) && (!(b = '.') || !isOpChar a) &&
-    (!(b = '(') || !isOpChar a)
+  !wordBad b && (!isDigit b || !litAfter a) && (!(b = '.') || !litAfter a) && (!(b = '(') || !isOpChar a)
 
 def okFirst (b : Char) : Bool := !wordBad b && !isDigit b && !(b = '.')
 
@@ -44,27 +60,47 @@ def wordShape (w : List Char) : Bool :=
   | [] => false
   | c :: r => okFirst c && chainOK c r && parenOK w
 
-/-- Conditions on a word that depend on the previously copied word `prev`:
-    the word is none of the words the fingerprint treats specially
-    (`use` in first position, `null` as a value, `asc`, `in`/`value`/`values`,
-    a parenthesis after `call`, `update` after `key`). -/
+/-- Conditions on word text that depend on the previously copied text `prev`:
+    it is none of the words the fingerprint treats specially (`use` in first
+    position, `null` as a value, `asc`, `in`/`value`/`values`, a parenthesis
+    after `call`). -/
 def wordCtx (prev w : List Char) : Bool :=
   let lw := lower w
   !(decide (lw = kwUse) && decide (prev = [])) &&
   !(decide (lw = kwNull) && !(decide (prev = kwIs)) && !(decide (prev = kwNot))) &&
   !(decide (lw = kwNullComma)) && !isAscWord lw && !isValuesWord lw &&
-  !(w.contains '(' && decide (prev = kwCall)) &&
-  !(decide (prev = kwKey) && decide (lw = kwUpdate))
+  !(w.contains '(' && decide (prev = kwCall))
 
-/-- A numeric literal as the state machine sees it: a digit followed by
-    characters of `[0-9a-fA-F.x-]`. -/
+/-- `update` after `key`: the rest of the statement is the assignment list of
+    `ON DUPLICATE KEY UPDATE`, where `values(col)` is not a value list. -/
+def keyUpd (prev w : List Char) : Bool := decide (prev = kwKey) && decide (lower w = kwUpdate)
+
+/-- The characters of a number after its first digit (`p` = the previous
+    character): digits, hex digits, `.`, `x`, and a sign directly after `e`/`E`
+    and before a digit. -/
+def numTail : Char → List Char → Bool
+  | _, [] => true
+  | p, c :: rest =>
+    if c = '-' ∨ c = '+' then
+      (p = 'e' || p = 'E') && (match rest with | d :: _ => isDigit d | [] => false) && numTail c rest
+    else isNumberChar c && numTail c rest
+
+/-- A numeric literal: `12`, `0x1F`, `1.5e-3`, `1e+5`; with a sign `-5`, `+7`;
+    with a leading dot `.5`. -/
 def numShape (n : List Char) : Bool :=
   match n with
   | [] => false
-  | c :: r => isDigit c && r.all isNumberChar
+  | c :: r =>
+    if isDigit c then numTail c r
+    else if c = '-' ∨ c = '+' ∨ c = '.' then
+      match r with
+      | d :: r' => isDigit d && numTail d r'
+      | [] => false
+    else false
 
 /-- Does the quoted text after the opening quote `c` end exactly with its
-    closing quote?  (`esc`: the previous character was an unescaped backslash.) -/
+    closing quote?  (`esc`: the previous character was an unescaped backslash
+    or the first of two doubled quote characters.) -/
 def closesAt (c : Char) : Bool → List Char → Bool
   | _, [] => false
   | esc, x :: rest =>
@@ -73,7 +109,10 @@ def closesAt (c : Char) : Bool → List Char → Bool
       else if x = '\\' then closesAt c true rest
       else closesAt c false rest
     else if esc then closesAt c false rest
-    else rest.isEmpty
+    else
+      match rest with
+      | [] => true
+      | y :: _ => if y = c then closesAt c true rest else false
 
 def strShape (s : List Char) : Bool :=
   match s with
@@ -90,7 +129,10 @@ def skipQuoted (c : Char) : Bool → List Char → Option (List Char)
       else if x = '\\' then skipQuoted c true rest
       else skipQuoted c false rest
     else if esc then skipQuoted c false rest
-    else some rest
+    else
+      match rest with
+      | y :: _ => if y = c then skipQuoted c true rest else some rest
+      | [] => some rest
 
 /-- The content of a value list between its parentheses, read at parenthesis
     depth `d` (1 = directly inside the list): quoted values are skipped, the
@@ -107,76 +149,10 @@ def listScan : Nat → Nat → List Char → Bool
     else if c = ')' then (if d ≤ 1 then false else listScan fuel (d - 1) rest)
     else listScan fuel d rest
 
+/-- The content is followed by `)`: a quote that ends the content is not doubled. -/
 def listContentOK (content : List Char) : Bool := listScan (content.length + 1) 1 content
 
-/-- `IN`/`VALUE`/`VALUES`, optional white space, and a parenthesised list. -/
-def listShape (kw gap content : List Char) : Bool :=
-  wordShape kw && isValuesWord kw && kw.all (fun c => !isOpChar c && c ≠ '(') &&
-    gap.all isSpace && listContentOK content
-
-/-- The left part of an unspaced comparison (`id=`, `t.name>=`): a word that
-    ends with an operator character. -/
-def cmpShape (w : List Char) : Bool :=
-  wordShape w && (match w.getLast? with | some c => isOpChar c | none => false) && !isValuesWord (lower w)
-
-inductive Item where
-  | word (w : List Char)
-  | num (n : List Char)
-  | str (s : List Char)
-  /-- `id=1`: a word ending with an operator character, glued to a number -/
-  | cmpNum (w : List Char) (n : List Char)
-  /-- `name>='x'`: the same glued to a quoted string -/
-  | cmpStr (w : List Char) (s : List Char)
-  /-- `in (1, 2)`, `values('a', f(b))`: the text is `kw ++ gap ++ "(" ++ content ++ ")"` -/
-  | vlist (kw gap content : List Char)
-  deriving Repr, DecidableEq, Inhabited
-
-def Item.text : Item → List Char
-  | .word w => w
-  | .num n => n
-  | .str s => s
-  | .cmpNum w n => w ++ n
-  | .cmpStr w s => w ++ s
-  | .vlist kw gap content => kw ++ gap ++ '(' :: content ++ [')']
-
-/-- The normal form an item contributes to the fingerprint. -/
-def Item.norm : Item → List Char
-  | .word w => lower w
-  | .num _ => ['?']
-  | .str _ => ['?']
-  | .cmpNum w _ => lower w ++ ['?']
-  | .cmpStr w _ => lower w ++ ['?']
-  | .vlist kw _ content => lower kw ++ (if content.isEmpty then ['(', ')'] else ['(', '?', '+', ')'])
-
-def Item.shapeOK : Item → Bool
-  | .word w => wordShape w
-  | .num n => numShape n
-  | .str s => strShape s
-  | .cmpNum w n => cmpShape w && numShape n
-  | .cmpStr w s => cmpShape w && strShape s
-  | .vlist kw gap content => listShape kw gap content
-
-/-- The previously copied word after an item. -/
-def Item.nextPrev (prev : List Char) : Item → List Char
-  | .word w => lower w
-  | .cmpNum w _ => lower w
-  | .cmpStr w _ => lower w
-  | .vlist kw _ _ => lower kw
-  | _ => prev
-
-/-- The context condition of one item (`prev` = the previously copied word). -/
-def Item.ctxOK1 (prev : List Char) : Item → Bool
-  | .word w => wordCtx prev w
-  | .cmpNum w _ => !(w.contains '(' && decide (prev = kwCall))
-  | .cmpStr w _ => !(w.contains '(' && decide (prev = kwCall))
-  | .vlist _ _ _ => !(decide (prev = kwCall))
-  | _ => true
-
-def ctxOK : List Char → List Item → Bool
-  | _, [] => true
-  | prev, it :: rest => it.ctxOK1 prev && ctxOK (it.nextPrev prev) rest
-
-/-! ### Separators -/
+/-! ### Separator pieces -/
 
 /-- Body of a `/* … */` comment after the opening `/*`: its first `*/` is its end. -/
 def mlcTail : List Char → Bool
@@ -189,7 +165,6 @@ def lineTail : List Char → Bool
   | [] => false
   | c :: rest => if c = '\n' then rest.isEmpty else lineTail rest
 
-/-- One piece of a separator after its first white-space character. -/
 inductive SepPiece where
   | ws (c : Char)
   | mlc (body : List Char)      -- the text is `/*` ++ body, body ends with `*/`
@@ -206,61 +181,273 @@ def SepPiece.text : SepPiece → List Char
 def SepPiece.ok : SepPiece → Bool
   | .ws c => isSpace c
   | .mlc body => mlcTail body && !(body.head? = some '!')
-  | .dash c body => (c = ' ' || c = '\t' || c = '\r') && lineTail body
+  | .dash c body => isSpace c && c ≠ '\n' && lineTail body
   | .hash body => lineTail body
 
-/-- A separator: a white-space character, then white space and complete comments. -/
-structure Sep where
-  first : Char
-  pieces : List SepPiece
+def SepPiece.isWs : SepPiece → Bool
+  | .ws _ => true
+  | _ => false
+
+/-- What `blankComments` makes of a piece: blanks, the newline that ends a
+    one-line comment stays. -/
+def SepPiece.blank : SepPiece → List SepPiece
+  | .ws c => [.ws c]
+  | .mlc body => (List.replicate (body.length + 2) (.ws ' '))
+  | .dash _ body => (List.replicate (body.length + 2) (.ws ' ')) ++ [.ws '\n']
+  | .hash body => (List.replicate body.length (.ws ' ')) ++ [.ws '\n']
+
+abbrev Gap := List SepPiece
+
+def gapText (g : Gap) : List Char := g.flatMap SepPiece.text
+def gapOK (g : Gap) : Bool := g.all SepPiece.ok
+def gapIsWs (g : Gap) : Bool := g.all SepPiece.isWs
+def gapBlank (g : Gap) : Gap := g.flatMap SepPiece.blank
+
+/-! ### Items -/
+
+/-- A segment of a chunk. -/
+inductive Seg where
+  | w (t : List Char)
+  | n (t : List Char)
+  | s (t : List Char)
+  /-- a hex or bit string `x'0F'`, `b'01'`: the prefix `x` or `b` and the quoted string -/
+  | p (c : Char) (t : List Char)
   deriving Repr, DecidableEq, Inhabited
 
-def Sep.text (s : Sep) : List Char := s.first :: s.pieces.flatMap SepPiece.text
-def Sep.ok (s : Sep) : Bool := isSpace s.first && s.pieces.all SepPiece.ok
+def Seg.text : Seg → List Char
+  | .w t => t
+  | .n t => t
+  | .s t => t
+  | .p c t => c :: t
 
-/-- May the word follow a value list?  Its first character is neither an
-    operator character, a parenthesis nor a comma. -/
+def Seg.norm : Seg → List Char
+  | .w t => lower t
+  | .n _ => ['?']
+  | .s _ => ['?']
+  | .p _ _ => ['?']
+
+def segsText (l : List Seg) : List Char := l.flatMap Seg.text
+def segsNorm (l : List Seg) : List Char := l.flatMap Seg.norm
+
+/-- What precedes a segment inside its chunk. -/
+inductive SegCtx where
+  | start            -- the chunk begins here
+  | afterW (a : Char)  -- word text ending with `a`
+  | afterLit         -- a literal
+  deriving Repr, DecidableEq, Inhabited
+
+/-- May the word text `t` follow a number?  Its first character is none of
+    the characters that continue a number or turn it into a word. -/
+def notNumberish (c : Char) : Bool := !isNumberChar c && !isNotNumberChar c
+
+/-- Shape and adjacency of the segments of a chunk: word text and literals
+    alternate; a number follows `,`, `(` or an operator character (or begins
+    the chunk); a quoted string follows any word character but `\`, `x`, `b`;
+    word text after a literal begins with a character that cannot continue it. -/
+def segsOK : SegCtx → List Seg → Bool
+  | ctx, [] => ctx ≠ .start
+  | ctx, .w t :: rest =>
+    (match ctx with
+      | .start => true
+      | .afterLit => (match t with | c :: _ => notNumberish c | [] => false)
+      | .afterW _ => false) &&
+    wordShape t &&
+    (match t.getLast? with
+      | some a => segsOK (.afterW a) rest
+      | none => false)
+  | ctx, .n t :: rest =>
+    (match ctx with
+      | .start => true
+      | .afterW a => litAfter a
+      | .afterLit => false) &&
+    numShape t &&
+    (match rest with
+      | [] => true
+      | .w _ :: _ => true
+      | _ => false) && segsOK .afterLit rest
+  | ctx, .s t :: rest =>
+    (match ctx with
+      | .start => true
+      | .afterW a => a ≠ '\\' && a ≠ 'x' && a ≠ 'b'
+      | .afterLit => false) &&
+    strShape t &&
+    (match rest with
+      | [] => true
+      | .w _ :: _ => true
+      | _ => false) && segsOK .afterLit rest
+  | ctx, .p c t :: rest =>
+    (match ctx with
+      | .start => true
+      | .afterW a => litAfter a
+      | .afterLit => false) &&
+    (c = 'x' || c = 'b') && strShape t &&
+    (match rest with
+      | [] => true
+      | .w _ :: _ => true
+      | _ => false) && segsOK .afterLit rest
+
+/-- The context conditions of the word segments (`prev` = the previously copied text). -/
+def segsCtx : List Char → List Seg → Bool
+  | _, [] => true
+  | prev, .w t :: rest => wordCtx prev t && segsCtx (lower t) rest
+  | prev, _ :: rest => segsCtx prev rest
+
+/-- Are we behind `ON DUPLICATE KEY UPDATE` after the segments?  (The state
+    machine notices `update` only when white space ends it.) -/
+def segsDupe : List Char → Bool → List Seg → Bool
+  | _, d, [] => d
+  | prev, d, [.w t] => d || keyUpd prev t
+  | _, d, .w t :: rest => segsDupe (lower t) d rest
+  | prev, d, _ :: rest => segsDupe prev d rest
+
+/-- The previously copied text after the segments. -/
+def segsPrev : List Char → List Seg → List Char
+  | prev, [] => prev
+  | _, .w t :: rest => segsPrev (lower t) rest
+  | prev, _ :: rest => segsPrev prev rest
+
+/-- A further row of a value list: `g1 , g2 ( content )`. -/
+structure Row where
+  g1 : Gap
+  g2 : Gap
+  content : List Char
+  deriving Repr, DecidableEq, Inhabited
+
+def Row.text (r : Row) : List Char := gapText r.g1 ++ ',' :: (gapText r.g2 ++ '(' :: (r.content ++ [')']))
+
+inductive Item where
+  | chunk (segs : List Seg)
+  /-- `in (1, 2)`, `values('a', f(b)), (2, 3)`: the text is
+      `kw ++ gap ++ "(" ++ content ++ ")" ++ rows` -/
+  | vlist (kw : List Char) (gap : Gap) (content : List Char) (rows : List Row)
+  deriving Repr, DecidableEq, Inhabited
+
+def Item.text : Item → List Char
+  | .chunk segs => segsText segs
+  | .vlist kw gap content rows => kw ++ (gapText gap ++ '(' :: (content ++ ')' :: rows.flatMap Row.text))
+
+/-- The normal form an item contributes to the fingerprint. -/
+def Item.norm : Item → List Char
+  | .chunk segs => segsNorm segs
+  | .vlist kw _ content _ => lower kw ++ (if content.isEmpty then ['(', ')'] else ['(', '?', '+', ')'])
+
+/-- The mode `blankComments` is in after a text. -/
+def blankMode : BMode → List Char → BMode
+  | m, [] => m
+  | .mlcOpen, _ :: rest => blankMode (.mlc false) rest
+  | .mlc ps, c :: rest => blankMode (if c = '/' ∧ ps = true then .code else .mlc (c = '*')) rest
+  | .olc, c :: rest => blankMode (if c = '\n' then .code else .olc) rest
+  | .quote qc esc, c :: rest =>
+    blankMode (if esc then .quote qc false else if c = '\\' then .quote qc true
+               else if c = qc then .code else .quote qc false) rest
+  | .code, c :: rest =>
+    if c = '\'' ∨ c = '"' then blankMode (.quote c false) rest
+    else if c = '/' ∧ startsMlc rest = true then blankMode .mlcOpen rest
+    else if c = '#' ∨ (c = '-' ∧ startsDash rest = true) then blankMode .olc rest
+    else blankMode .code rest
+
+/-- The content of a value list once its comments are blanked: `none` if a
+    comment or a quoted value is still open at the closing parenthesis. -/
+def contentBlank (content : List Char) : Option (List Char) :=
+  if blankMode .code (content ++ [')']) = .code then some (blankGo .code (content ++ [')'])).dropLast else none
+
+def contentOK (content : List Char) : Bool :=
+  match contentBlank content with
+  | some c' => listContentOK c'
+  | none => false
+
+def Row.ok (r : Row) : Bool := gapOK r.g1 && gapOK r.g2 && contentOK r.content
+
+def kwShape (kw : List Char) : Bool :=
+  wordShape kw && isValuesWord kw && kw.all (fun c => !isOpChar c && c ≠ '(')
+
+def Item.shapeOK : Item → Bool
+  | .chunk segs => segsOK .start segs
+  | .vlist kw gap content rows => kwShape kw && gapOK gap && contentOK content && rows.all Row.ok
+
+/-- The previously copied text after an item. -/
+def Item.nextPrev (prev : List Char) : Item → List Char
+  | .chunk segs => segsPrev prev segs
+  | .vlist kw _ _ _ => lower kw
+
+/-- Are we behind `ON DUPLICATE KEY UPDATE` after an item? -/
+def Item.nextDupe (prev : List Char) (d : Bool) : Item → Bool
+  | .chunk segs => segsDupe prev d segs
+  | .vlist _ _ _ _ => d
+
+/-- The context condition of one item (`prev` = the previously copied text,
+    `d` = behind `ON DUPLICATE KEY UPDATE`, where there are no value lists). -/
+def Item.ctxOK1 (prev : List Char) (d : Bool) : Item → Bool
+  | .chunk segs => segsCtx prev segs
+  | .vlist _ _ _ _ => !(decide (prev = kwCall)) && !d
+
+def ctxOK : List Char → Bool → List Item → Bool
+  | _, _, [] => true
+  | prev, d, it :: rest => it.ctxOK1 prev d && ctxOK (it.nextPrev prev) (it.nextDupe prev d) rest
+
+def Item.isList : Item → Bool
+  | .vlist _ _ _ _ => true
+  | _ => false
+
+def Item.rows : Item → List Row
+  | .vlist _ _ _ rows => rows
+  | _ => []
+
+/-- May the chunk follow a value list?  It begins with word text whose first
+    character is neither an operator character, a parenthesis nor a comma
+    (`and`, `or`, `)`, `order`, `on`, …). -/
 def plainFirst (w : List Char) : Bool :=
   match w with
   | c :: _ => !isOpChar c && c ≠ '(' && c ≠ ','
   | [] => false
 
-def Item.isList : Item → Bool
-  | .vlist _ _ _ => true
+def Item.isPlain : Item → Bool
+  | .chunk (.w t :: _) => plainFirst t
   | _ => false
 
-/-- After a value list only white space may follow (no comment), and the next
-    item, if any, is a word that begins with neither an operator character, a
-    parenthesis nor a comma (`and`, `or`, `)`, `order`, `on`, …). -/
-def listsOK : List (Item × Sep) → Bool
+/-- Separators: every item but a value list is followed by a non-empty
+    separator; a value list of one row may be glued to the chunk that follows
+    it (`(a in (1))`); what follows a value list is a chunk that begins with
+    plain word text, or the end. -/
+def sepsOK : List (Item × Gap) → Bool
   | [] => true
   | (it, sep) :: rest =>
+    (if sep.isEmpty then it.isList && it.rows.isEmpty && !rest.isEmpty else true) &&
     (!it.isList ||
-      (sep.pieces.all (fun p => match p with | .ws _ => true | _ => false) &&
-        (match rest with
-         | [] => true
-         | (.word w, _) :: _ => plainFirst w
-         | _ => false))) && listsOK rest
+      (match rest with
+       | [] => true
+       | (nx, _) :: _ => nx.isPlain)) && sepsOK rest
 
-/-- The text of a rendering: leading separator pieces, then every item with its separator. -/
-def renderItems : List (Item × Sep) → List Char
+def renderItems : List (Item × Gap) → List Char
   | [] => []
-  | (it, s) :: rest => it.text ++ s.text ++ renderItems rest
+  | (it, s) :: rest => it.text ++ (gapText s ++ renderItems rest)
 
-/-- The concatenated normal forms, one blank after each. -/
-def normAll : List Item → List Char
+/-- The concatenated normal forms; one blank after each item that is followed
+    by a separator. -/
+def normAll : List (Item × Gap) → List Char
   | [] => []
-  | it :: rest => it.norm ++ ' ' :: normAll rest
+  | (it, s) :: rest => it.norm ++ ((if s.isEmpty then [] else [' ']) ++ normAll rest)
 
-/-! ### Statements of the grammar -/
+/-- The skeleton: the blank-free tokens of the fingerprint (the normal form of
+    an item, joined with that of the next item when no separator is between them). -/
+def skelOf : List (Item × Gap) → List (List Char)
+  | [] => []
+  | (it, s) :: rest =>
+    if s.isEmpty then
+      match skelOf rest with
+      | [] => [it.norm]
+      | t :: ts => (it.norm ++ t) :: ts
+    else it.norm :: skelOf rest
+
+/-! ### Statements -/
 
 /-- A statement: leading blanks/comments, items with their separators, the
-    last item, and what follows it (nothing, or a separator). -/
+    last item, and what follows it. -/
 structure Stmt where
-  lead : List SepPiece
-  init : List (Item × Sep)
+  lead : Gap
+  init : List (Item × Gap)
   last : Item
-  tail : Option Sep
+  tail : Gap
   deriving Repr
 
 namespace Stmt
@@ -269,29 +456,53 @@ def items (s : Stmt) : List Item := s.init.map (·.1) ++ [s.last]
 
 /-- The text of the statement. -/
 def text (s : Stmt) : List Char :=
-  s.lead.flatMap SepPiece.text ++ renderItems s.init ++ s.last.text ++
-    (match s.tail with | none => [] | some t => t.text)
-
-/-- The skeleton: lower-cased words, `?` for literals. -/
-def skeleton (s : Stmt) : List (List Char) := s.items.map Item.norm
+  gapText s.lead ++ (renderItems s.init ++ (s.last.text ++ gapText s.tail))
 
 /-- The separator after the last item once Go's `q += " "` is taken into account. -/
-def lastSep (s : Stmt) : Sep :=
-  match s.tail with
-  | none => { first := ' ', pieces := [] }
-  | some t => { first := t.first, pieces := t.pieces ++ [SepPiece.ws ' '] }
+def lastSep (s : Stmt) : Gap := s.tail ++ [SepPiece.ws ' ']
 
-def allItems (s : Stmt) : List (Item × Sep) := s.init ++ [(s.last, s.lastSep)]
+def allItems (s : Stmt) : List (Item × Gap) := s.init ++ [(s.last, s.lastSep)]
+
+/-- The skeleton: lower-cased word text, `?` for literals, `in(?+)` for value lists. -/
+def skeleton (s : Stmt) : List (List Char) := skelOf s.allItems
 
 /-- Every item and separator is well formed and no item is one of the words
     the fingerprint treats specially. -/
 def ok (s : Stmt) : Bool :=
-  s.lead.all SepPiece.ok && s.init.all (fun p => p.1.shapeOK && p.2.ok) && s.last.shapeOK &&
-    (match s.tail with | none => true | some t => t.ok) && ctxOK [] s.items &&
-    listsOK s.allItems
-
+  gapOK s.lead && s.init.all (fun p => p.1.shapeOK && gapOK p.2) && s.last.shapeOK && gapOK s.tail &&
+    ctxOK [] false s.items && sepsOK s.allItems
 
 end Stmt
+
+/-! ### Core statements: no comments (what the state machine reads after `blankComments`) -/
+
+def wsGap (g : Gap) : Bool := gapOK g && gapIsWs g
+
+def Row.core (r : Row) : Bool := wsGap r.g1 && wsGap r.g2 && listContentOK r.content
+
+def Item.core : Item → Bool
+  | .chunk segs => segsOK .start segs
+  | .vlist kw gap content rows => kwShape kw && wsGap gap && listContentOK content && rows.all Row.core
+
+def Stmt.core (s : Stmt) : Bool :=
+  wsGap s.lead && s.init.all (fun p => p.1.core && wsGap p.2) && s.last.core && wsGap s.tail &&
+    ctxOK [] false s.items && sepsOK s.allItems
+
+/-! ### The statement `blankComments` makes of a statement -/
+
+def Row.toCore (r : Row) : Row :=
+  { g1 := gapBlank r.g1, g2 := gapBlank r.g2, content := (contentBlank r.content).getD r.content }
+
+def Item.toCore : Item → Item
+  | .chunk segs => .chunk segs
+  | .vlist kw gap content rows =>
+    .vlist kw (gapBlank gap) ((contentBlank content).getD content) (rows.map Row.toCore)
+
+def Stmt.toCore (s : Stmt) : Stmt :=
+  { lead := gapBlank s.lead
+    init := s.init.map fun p => (p.1.toCore, gapBlank p.2)
+    last := s.last.toCore
+    tail := gapBlank s.tail }
 
 /-- The skeleton joined by single blanks (one blank after every token). -/
 def joinSkel : List (List Char) → List Char
